@@ -1107,13 +1107,10 @@ def payload_compare(got, ref, exact: bool) -> dict:
     ref = [(p, d) for p, d in ref if d[0] != "flag"]
     out["n"] = len(ref)
     if [p for p, _ in got] != [p for p, _ in ref]:
-        if exact:
-            # the walk goes through _json_dict_ trees: a pickle or a copy has its payloads in the same places
-            out.update(same=False, where="structure", detail=f"{len(got)} payloads against {len(ref)}")
-            return out
-        # JSON: a class may keep what it was given as an array and read a plain list back (a field documented
-        # as list[float], e.g. GoogleNoiseProperties.readout_errors); only places that hold a payload on both
-        # sides are compared
+        # Only places that hold a payload on both sides are compared.  JSON: a class may keep what it was given
+        # as an array and read a plain list back (a field documented as list[float], e.g.
+        # GoogleNoiseProperties.readout_errors).  Any transport: results compute .measurements / .data lazily
+        # and may refuse (several instances per key), so one walk can see an attribute the other does not.
         gd = dict(got)
         pairs = [((p, gd[p]), (p, r)) for p, r in ref if p in gd]
         got, ref = [a for a, _ in pairs], [b for _, b in pairs]
